@@ -24,7 +24,7 @@ def t2s(x, kind='rat'):
 
 TIME_POS = {'sleep': [1], 'after': [1], 'before': [1], 'moment': [1], 'delay': [1], 'start': [1],
             'transfer': [2, 3], 'interval': [1], 'delayiter': [1], 'nestedrun': [1], 'pipes': 'all',
-            'newtimeout': [2], 'yieldtimeout': [1], 'yieldcoro': [1], 'pyuntil': [1], 'pywith': [1], 'time': [1]}
+            'till': [1], 'newtimeout': [2], 'yieldtimeout': [1], 'yieldcoro': [1], 'pyuntil': [1], 'pywith': [1], 'time': [1]}
 
 
 def close_unstarted(coros):
@@ -966,9 +966,16 @@ class Interp:
         class TooLong(BaseException):
             pass
 
+        created = []
+
         class GuardedLoop(Loop):
             """the real loop plus a bound on the number of activations (a livelock must not hang the check)"""
             __slots__ = ('verif_count',)
+
+            def __init__(self, *a, **k):
+                Loop.__init__(self, *a, **k)
+                self.verif_count = 0
+                created.append(self)
 
             def _run_coroutine(self, target, signal=None):
                 self.verif_count += 1
@@ -976,8 +983,13 @@ class Interp:
                     raise TooLong()
                 return Loop._run_coroutine(self, target, signal)
 
-        loop = GuardedLoop(*coros, start=start)
-        loop.verif_count = 0
+        # the simulation is started by the real `usim.run` (with `till` if the scenario has one); only the loop class
+        # it instantiates is the guarded subclass
+        import usim as _usim
+        till = self.fields.get('till', [None])[0]
+        if till is not None:
+            # run(till=..) turns every root activity into a task of a hidden scope: they take the first task numbers
+            self.task_count += len(roots)
         outcome = 'ok'
         # a wall-clock bound as well: code that spins inside one activation must not hang the check either
         import signal
@@ -989,8 +1001,10 @@ class Interp:
             previous = signal.signal(signal.SIGALRM, on_alarm)
             signal.setitimer(signal.ITIMER_REAL, float(os.environ.get('VERIF_CASE_SECONDS', '20')))
             armed = True
+        real_loop_class = _usim._Loop
+        _usim._Loop = GuardedLoop
         try:
-            loop.run()
+            _usim.run(*coros, start=start, till=None if till is None else self.tv(till))
         except TooLong:
             outcome = 'out-of-fuel'
         except BaseException as e:    # noqa
@@ -999,9 +1013,11 @@ class Interp:
                 import traceback
                 traceback.print_exc()
         finally:
+            _usim._Loop = real_loop_class
             if armed:
                 signal.setitimer(signal.ITIMER_REAL, 0)
                 signal.signal(signal.SIGALRM, previous)
+        loop = created[0]
         if outcome == 'ok':
             # waiters whose condition holds although nothing will wake them any more
             from usim._core.handler import __USIM_STATE__
